@@ -251,8 +251,8 @@ impl Monitor for C14 {
         N_DIRECTED
             + match t {
                 Tier::Tiny => 12,
-                Tier::Quick => 30_000,
-                Tier::Thorough => 500_000,
+                Tier::Quick => 2700000,
+                Tier::Thorough => 27000000,
             }
     }
     fn rule(&self) -> &'static str {
